@@ -58,7 +58,7 @@ def lname(n):
 # static types: int, pyf (Python float), npf (numpy float), bool, arr (numpy 1-d float array),
 # list (Python list of floats), listlist, mat (numpy 2-d), self, ext (int or +-inf), slice, row2d, none
 LEAN_TYPE = {'int': 'Int', 'pyf': 'K', 'npf': 'K', 'arr': 'Array K', 'list': 'Array K', 'listlist': 'Array (Array K)',
-             'mat': 'Mat K', 'self': 'Self K', 'ext': 'Ext', 'slice': 'Int × Int', 'boolv': 'Bool'}
+             'mat': 'Mat K', 'self': 'Self K', 'ext': 'Ext', 'slice': 'Int × Int', 'boolv': 'Bool', 'boolr': 'Bool'}
 FLOATS = ('pyf', 'npf')
 SEQS = ('arr', 'list')
 
@@ -97,11 +97,12 @@ SIGS = {
     'raise_order': {'params': [('amount', 'int', NODEFAULT)], 'ret': 'self', 'mut': None},
     'lower_order': {'params': [('amount', 'int', NODEFAULT)], 'ret': 'self', 'mut': None},
     'integrate': {'params': [('t0', 'npf', NODEFAULT), ('t1', 'npf', NODEFAULT)], 'ret': 'list', 'mut': None},
+    'matches': {'params': [('bspline', 'self', NODEFAULT), ('reverse', 'boolv', False)], 'ret': 'boolr', 'mut': None},
 }
 # translation order (callees first)
 ORDER = ['__init__', 'init_default', 'num_functions', 'start', 'end', 'greville', 'greville_at', 'snap', 'continuity',
          'knot_spans', '__iadd__', '__isub__', '__imul__', '__itruediv__', 'normalize', 'reparam', 'reverse', 'roll',
-         'make_periodic', 'insert_knot', 'raise_order', 'lower_order', 'integrate']
+         'make_periodic', 'insert_knot', 'raise_order', 'lower_order', 'integrate', 'matches']
 INPLACE = {ast.Add: '__iadd__', ast.Sub: '__isub__', ast.Mult: '__imul__', ast.Div: '__itruediv__'}
 # module-level names of basis.py that are not locals (only usable in the call / attribute forms handled below)
 GLOBALS = {'np', 'state', 'bisect_left', 'bisect_right', 'copy', 'BSplineBasis', 'csr_matrix', 'ensure_listlike',
@@ -519,6 +520,13 @@ class Fn:
                     if ta != 'arr':
                         raise Untranslatable('np.sum of a %r' % ta)
                     return '(npSum %s)' % a, 'npf'
+                if f.attr == 'allclose' and len(e.args) == 2 and set(kws) == {'atol'}:
+                    a, ta = self.ex(ind, e.args[0])
+                    b, tb = self.ex(ind, e.args[1])
+                    t, tt = self.ex(ind, kws['atol'])
+                    if ta != 'arr' or tb != 'arr':
+                        raise Untranslatable('np.allclose of %r and %r' % (ta, tb))
+                    return '(%s = true)' % self.bindm(ind, 'npAllclose %s %s %s' % (a, b, self.cast(t, tt))), 'bool'
                 if f.attr == 'zeros' and len(e.args) == 1 and not kws and isinstance(e.args[0], ast.Tuple) and len(e.args[0].elts) == 2:
                     r, tr = self.ex(ind, e.args[0].elts[0])
                     c, tc = self.ex(ind, e.args[0].elts[1])
@@ -756,6 +764,8 @@ class Fn:
                 v = self.cast(v, tv)
             elif want in SEQS and tv in SEQS:
                 pass
+            elif want == 'boolr' and tv == 'bool':
+                v = '(decide %s)' % v
             elif tv != want:
                 raise Untranslatable('%s returns a %r, expected a %r' % (self.key, tv, want))
             parts.append(v)
